@@ -72,6 +72,11 @@ chk("C06", "fault_enumeration",
     "Complete over token positions per generated text; texts are sampled. Expected lines count newlines of the generator's own text once (no parser model). The schedule dimension is empty for this property.",
     "deterministic simulation: exhaustive per-token fault injection (wrong token / bad value / cut) in a simulated include tree with a line oracle from the generator's token map", "7/C06")
 
+chk("C14", "fault_enumeration",
+    "Callback parties are simulator functions whose verdicts come from the plan. For seeded schemas (value-parsing callbacks of all five kinds, validators, pre-set validators, function options) and rendered texts whose decoded values the generator knows by construction, the complete invocation trace of the fault-free parse is aligned with the text (once per value, input order, exact decoded bytes, exact decoded function arguments, validator after every stored value and seeing it through read-only re-entry); then for EVERY k the parse is repeated with the k-th invocation returning non-zero: it must fail, invoke nothing afterwards, and leave every top-level option other than the one under assignment exactly as after the items before the failing one (O-prefix). One plan in five vetoes / rewrites by-name setters through the pre-set validator.",
+    "Complete over k per text; texts sampled. Options with callbacks carry no parsed defaults. The extra validator call at a list's closing brace is accepted, not required.",
+    "deterministic simulation: callback parties with exhaustive k-th-invocation failure injection, trace alignment and prefix-state oracle", "7/C14")
+
 PENDING = {}  # id -> reason (checks not built yet)
 
 def main():
